@@ -29,6 +29,7 @@ use yash_env::source::Location;
 use yash_env::system::r#virtual::FileBody;
 use yash_env::variable::{IFS, Scope, Value};
 use yash_semantics::expansion::initial::{Env as InitialEnv, Expand as _, Vacancy};
+use yash_semantics::expansion::phrase::Phrase;
 use yash_semantics::expansion::{Error as ExpError, ErrorCause};
 use yash_syntax::syntax as sx;
 use yash_syntax::syntax::Unquote as _;
@@ -833,7 +834,21 @@ fn run_w(state_toks: &[&str], word_text: &str) -> (String, String) {
                         return;
                     }
                     Some(Ok(phrase)) => {
-                        let fs: Vec<Vec<AttrChar>> = phrase.into_iter().collect();
+                        // direct API legs on the phrase: denotation equality, emptiness, iteration both ways
+                        let fs: Vec<Vec<AttrChar>> = phrase.clone().into_iter().collect();
+                        let mut back: Vec<Vec<AttrChar>> = phrase.clone().into_iter().rev().collect();
+                        back.reverse();
+                        let hint = phrase.clone().into_iter().size_hint();
+                        if back != fs
+                            || hint != (fs.len(), Some(fs.len()))
+                            || phrase.is_zero_fields() != fs.is_empty()
+                            || phrase != Phrase::Full(fs.clone())
+                            || Phrase::Full(fs.clone()) != phrase
+                            || (fs.len() == 1 && Phrase::Field(fs[0].clone()) != phrase)
+                            || phrase.field_count() != fs.len()
+                        {
+                            d.parse = Some("phrase-api".into());
+                        }
                         if !fs.iter().all(|f| strip_api_ok(f)) {
                             d.parse = Some("strip-api".into());
                         }
@@ -842,6 +857,10 @@ fn run_w(state_toks: &[&str], word_text: &str) -> (String, String) {
                         } else {
                             let ifs_text = env2.variables.get_scalar(IFS).map(|s| s.to_string());
                             let ifs = ifs_text.as_deref().map(Ifs::new).unwrap_or_default();
+                            let nws: String = ifs.chars().chars().filter(|c| !c.is_whitespace()).collect();
+                            if ifs.non_whitespaces() != nws {
+                                d.parse = Some("ifs-api".into());
+                            }
                             for f in &fs {
                                 for g in spec_split(f, &ifs) {
                                     fields.push(unquote(&g));
